@@ -393,13 +393,15 @@ def _do_op(P: Proc, op: dict) -> dict:
         except Exception as e:
             if slot is not None:
                 P._failed_slots.add(slot)
-            dg = model.failure_digest(e)
-            # what a caller can read from the object after the failure is part of what the call "gives"
-            dg["readable_results"] = [a for a in ("routine_ops", "routine_infos", "named_coroutines", "source_map") if getattr(c, a, None) is not None]
+            with trace.observation():
+                dg = model.failure_digest(e)
+                # what a caller can read from the object after the failure is part of what the call "gives"
+                dg["readable_results"] = [a for a in ("routine_ops", "routine_infos", "named_coroutines", "source_map") if getattr(c, a, None) is not None]
             return {"digest": dg}
         if slot is not None:
             P._failed_slots.discard(slot)
-        dg = model.compile_digest(c)
+        with trace.observation():
+            dg = model.compile_digest(c)
         if slot is None:
             P.kept.append(("C", c, model.canon(dg)))
         return {"digest": dg}
@@ -413,7 +415,8 @@ def _do_op(P: Proc, op: dict) -> dict:
             if P._j_count > 1:
                 P.probes["second_J"] += 1
             infos, coros, rops = cli_dec.read_routines(copy.deepcopy(pool["cli"][j])["routines"])
-            decoded = model.routines_to_json(infos, [c for c in coros], rops)
+            with trace.observation():
+                decoded = model.routines_to_json(infos, [c for c in coros], rops)
             objs = (infos, coros, rops)
             # the decoded routine set is part of the observation (numbering must not depend on history)
             pre_view = model.structural_view(decoded)
@@ -426,7 +429,8 @@ def _do_op(P: Proc, op: dict) -> dict:
                 P.shared[j] = objs
             pre_view = None
         infos, coros, rops = objs
-        before = model.routines_to_json(infos, coros, rops)
+        with trace.observation():
+            before = model.routines_to_json(infos, coros, rops)
         from explorerscript.ssb_converting.ssb_decompiler import ExplorerScriptSsbDecompiler
         from explorerscript.ssb_script.ssb_converting.ssb_decompiler import SsbScriptSsbDecompiler
         from explorerscript.ssb_converting.ssb_data_types import DungeonModeConstants
@@ -439,13 +443,15 @@ def _do_op(P: Proc, op: dict) -> dict:
             P.held.append(d)
         try:
             text, sm = d.convert()
-            dg = model.decompile_digest(text, sm)
+            with trace.observation():
+                dg = model.decompile_digest(text, sm)
             P.kept.append(("D", (text, sm), model.canon(dg)))
         except Exception as e:
             dg = model.failure_digest(e)
         if pre_view is not None:
             dg = {"decoded": pre_view, "result": dg}
-        after = model.routines_to_json(infos, coros, rops)
+        with trace.observation():
+            after = model.routines_to_json(infos, coros, rops)
         extra = {}
         if model.canon(before) != model.canon(after):
             extra["input_changed"] = _first_diff(before, after)
@@ -462,8 +468,9 @@ def _do_op(P: Proc, op: dict) -> dict:
             c.compile(pool["ssbs"][op["i"]])
         except Exception as e:
             return {"digest": model.failure_digest(e)}
-        d = model.routines_to_json(c.routine_infos, c.named_coroutines, c.routine_ops)
-        d["source_map"] = json.loads(c.source_map.serialize())
+        with trace.observation():
+            d = model.routines_to_json(c.routine_infos, c.named_coroutines, c.routine_ops)
+            d["source_map"] = json.loads(c.source_map.serialize())
         return {"digest": d}
     raise HarnessError(f"unknown op {op}")
 
